@@ -271,7 +271,7 @@ class ModelGen:
 
         def formals(direction):
             out, ftaken = [], set()
-            for _ in range(rng.randint(0, 3)):
+            for _ in range(0 if rng.random() < 0.5 else rng.randint(0, 3)):
                 if not self.externs:
                     break
                 xt, _x = rng.choice(self.externs)
@@ -301,7 +301,7 @@ class ModelGen:
                                   rng.choice([M.Ref(['void']), M.Ref(['bool']),
                                               M.Ref(list(reply.ids), reply.target)]),
                                   formals('in')))
-        for _ in range(rng.randint(1, 3)):
+        for _ in range(rng.randint(2, 4)):
             events.append(M.Event(fresh(rng, taken, rng.choice(['camel', 'snake', 'single'])), 'out',
                                   M.Ref(['void']), formals('out')))
         rng.shuffle(events)
@@ -331,7 +331,7 @@ class ModelGen:
             ename = fresh(rng, taken, rng.choice(['camel', 'single', 'snake', 'digit', 'under']))
             formals = []
             ftaken: set = set()
-            for _f in range(self._rint(o.n_formals)):
+            for _f in range(0 if rng.random() < 0.35 else self._rint(o.n_formals)):
                 if not self.externs:
                     break
                 xt, _x = rng.choice(self.externs)
